@@ -55,7 +55,11 @@ func VF_C11_Deals() {
 	n, t := vf.ParamInt("n"), vf.ParamInt("t")
 	kinds := make([]int, n)
 	allHonest := true
+	swap := vf.Param("swap") != "" && n >= 3
 	for j := 1; j < n; j++ {
+		if swap {
+			continue // every dealer is honest by itself; two of them swap their data on both channels (below)
+		}
 		kinds[j] = vf.Choose("dealer"+strconv.Itoa(j)+".kind", vfKinds)
 		if kinds[j] != vfHonest {
 			allHonest = false
@@ -70,6 +74,17 @@ func VF_C11_Deals() {
 	if victim == nil {
 		vf.Unreachable("scenario")
 		return
+	}
+	if swap {
+		// two cooperating dealers: 1 publishes 2's commitments and carries 2's signed deal, and vice versa. Each deal is
+		// consistent with the commitments published under the OTHER name, and with neither dealer's own broadcast.
+		a, b := vfName(1), vfName(2)
+		if vf.Symbolic() {
+			vf.Assume(!vf.BytesEq(vfCommitBytes(victim, a, 0), vfCommitBytes(victim, b, 0)))
+		}
+		victim.commits[a], victim.commits[b] = victim.commits[b], victim.commits[a]
+		victim.deals[a], victim.deals[b] = victim.deals[b], victim.deals[a]
+		allHonest = false
 	}
 	panicked := false
 	var resps []*dkgp.Response
@@ -270,4 +285,13 @@ func vfRealScenario(n, t int, kinds []int) *DKG {
 		victim.StoreDeal(vfName(j), deal)
 	}
 	return victim
+}
+
+func vfCommitBytes(d *DKG, name string, k int) []byte {
+	cs := d.commits[name]
+	if k >= len(cs) {
+		return nil
+	}
+	b, _ := cs[k].MarshalBinary()
+	return b
 }
